@@ -257,6 +257,9 @@ Theorem clear_rep d t rows t' : TRep d t rows -> clear t = Ok t' -> TRep d t' []
 Proof. intros R H. apply (truncate_rep _ _ _ _ _ R H). Qed.
 
 (* ---------- extend ---------- *)
+Ltac zero_case R :=
+  exists 0%nat; simpl; rewrite app_nil_r; split; [lia|]; split; [exact R|]; split; [constructor|];
+  intros X; try discriminate X; try reflexivity.
 Lemma extend_loop_rep d idx : forall t rows other orows t' st,
   TRep d t rows -> TRep d other orows ->
   extend_loop d t other idx = (t', st) ->
@@ -266,9 +269,9 @@ Lemma extend_loop_rep d idx : forall t rows other orows t' st,
     (st = Ok tt -> k = length idx).
 Proof.
   induction idx as [|i idx IH]; intros t rows other orows t' st R Ro H; simpl in H.
-  - inversion H; subst. exists 0%nat. simpl. rewrite app_nil_r. repeat split; auto.
+  - inversion H; subst. zero_case R.
   - destruct (get_row d other i) as [r| | |] eqn:G.
-    2-4: (inversion H; subst; exists 0%nat; simpl; rewrite app_nil_r; repeat split; auto; try lia; discriminate).
+    2-4: (inversion H; subst; zero_case R).
     assert (Hi : 0 <= i < nrows other).
     { unfold get_row in G. destruct ((i <? 0) || (i >=? nrows other)) eqn:C; [discriminate|].
       apply orb_false_iff in C as [C1 C2]. apply Z.ltb_ge in C1. rewrite Z.geb_leb in C2.
@@ -278,14 +281,11 @@ Proof.
     { pose proof (tr_shape _ _ _ Ro) as S. rewrite Forall_forall in S. apply S, nth_In.
       pose proof (tr_n _ _ _ Ro) as N. unfold zlen in N. lia. }
     destruct (add_row d t (nth (Z.to_nat i) orows row0)) as [t1| | |] eqn:A.
-    2-4: (inversion H; subst; exists 0%nat; simpl; rewrite app_nil_r; repeat split; auto; try lia; discriminate).
+    2-4: (inversion H; subst; zero_case R).
     pose proof (add_row_rep _ _ _ _ _ R Okr A) as R1.
     destruct (IH _ _ _ _ _ _ R1 Ro H) as (k & Lk & Rk & Fk & Sk).
-    exists (S k). simpl. repeat split.
-    + lia.
-    + rewrite <- app_assoc in Rk. exact Rk.
-    + constructor; assumption.
-    + intros E. rewrite (Sk E). reflexivity.
+    exists (S k). simpl. split; [lia|]. split; [rewrite <- app_assoc in Rk; exact Rk|].
+    split; [constructor; assumption|]. intros E. rewrite (Sk E). reflexivity.
 Qed.
 
 Theorem extend_rep d t rows other orows idx t' st :
@@ -298,7 +298,7 @@ Theorem extend_rep d t rows other orows idx t' st :
 Proof.
   intros R Ro H. unfold extend in H.
   destruct (expand_main t (zlen idx)) as [t1| | |] eqn:E.
-  2-4: (inversion H; subst; exists 0%nat; simpl; rewrite app_nil_r; repeat split; auto; try lia; discriminate).
+  2-4: (inversion H; subst; zero_case R).
   destruct (expand_main_Ok _ _ _ E) as (N1 & I1 & F1 & R1 & M1 & C1).
   assert (Rt1 : TRep d t1 rows).
   { destruct R. constructor; rewrite ?N1, ?I1, ?F1, ?R1; auto; try lia.
